@@ -9,9 +9,9 @@
 //!   OffsetArc, ArcUnion (both arms), ArcBorrow, UniqueArc conversions and clones made inside
 //!   with_arc-style callbacks must record EXACTLY the event sequence of the corresponding Arc
 //!   operation run in the same harness (differential: today's orderings are not hard-coded).
-//! ASSUME: core::sync::atomic::{atomic_add, atomic_sub, atomic_load, fence} replaced by recording
+//! ASSUME: core::sync::atomic::{atomic_add, atomic_sub, atomic_load, atomic_compare_exchange, fence} replaced by recording
 //!   stubs that perform the plain operation (Kani is sequential); alloc/dealloc logging stubs.
-//! OUTSIDE: atomics reached through other core entry points (compare_exchange, swap, store: a
+//! OUTSIDE: atomics reached through other core entry points (compare_exchange_weak, swap, store: a
 //!   use of those in /repo shows up in Engine W's counter-access scan instead).
 use crate::ghost::*;
 use crate::kinds::*;
@@ -23,7 +23,7 @@ include!("c02_expected.rs");
 
 #[derive(Clone, Copy, PartialEq)]
 pub struct AEv {
-    pub kind: u8, // 1 add, 2 sub, 3 load, 4 fence
+    pub kind: u8, // 1 add, 2 sub, 3 load, 4 fence, 5 compare-exchange succeeded (operand = new value), 6 failed
     pub ord: u8,
     pub operand: usize,
 }
@@ -70,6 +70,19 @@ pub unsafe fn load_stub<T: Copy, const B: bool>(dst: *const T, order: Ordering) 
     rec(3, order, 0, dst as usize);
     *dst
 }
+pub unsafe fn cas_stub<T: Copy>(dst: *mut T, old: T, new: T, success: Ordering, failure: Ordering) -> Result<T, T> {
+    assert!(core::mem::size_of::<T>() == 8);
+    let (o, n): (usize, usize) = (transmute_copy(&old), transmute_copy(&new));
+    let cur = *(dst as *const usize);
+    if cur == o {
+        rec(5, success, n, dst as usize);
+        *(dst as *mut usize) = n;
+        Ok(transmute_copy(&cur))
+    } else {
+        rec(6, failure, 0, dst as usize);
+        Err(transmute_copy(&cur))
+    }
+}
 pub fn fence_stub(order: Ordering) {
     unsafe { rec(4, order, 0, 0) };
 }
@@ -106,6 +119,7 @@ macro_rules! h {
         #[kani::stub(core::sync::atomic::atomic_sub, sub_stub)]
         #[kani::stub(core::sync::atomic::atomic_load, load_stub)]
         #[kani::stub(core::sync::atomic::fence, fence_stub)]
+        #[kani::stub(core::sync::atomic::atomic_compare_exchange, cas_stub)]
         fn $name() {
             crate::ghost::arm();
             $body
